@@ -2,6 +2,7 @@ package main
 
 import (
 	"encoding/json"
+	"encoding/xml"
 	"fmt"
 	"strings"
 	"unicode/utf8"
@@ -374,6 +375,21 @@ func c05Doc(run *Run, r *Rng, n *c05ENode, fixed bool) {
 					}
 				}
 				out := c05EncodeWith(o, enc, val)
+				if mode == 0 && chk {
+					// the verdict of the validity check must not depend on how the user configured DECODING:
+					// a lenient CustomDecoder (Strict: false) is for reading sloppy input, not for what Xml() may return
+					mxj.CustomDecoder = &xml.Decoder{Strict: false}
+					out2 := c05EncodeWith(o, enc, val)
+					mxj.CustomDecoder = nil
+					if !out2.Panicked && out2.Err == nil {
+						if ok2, why2 := c05WellFormed(out2.Ret.([]byte)); !ok2 {
+							if _, terr := tokenize(out2.Ret.([]byte), false); terr != nil {
+								vio(c05EscKey(enc, "ill-formed-output-nil-error-customdecoder"), "with a non-strict CustomDecoder set: nil error but the output is not well formed ("+why2+")",
+									string(out2.Ret.([]byte)), "an error or well-formed XML")
+							}
+						}
+					}
+				}
 				if out.Panicked {
 					key := c05EscKey(enc, "panic")
 					vio(key, "the encoder panicked", out.text(), "bytes or an error")
